@@ -55,13 +55,24 @@ type Driver struct {
 	Jobs     int
 }
 
+// ChildHook runs one history of a custom driver in a child process (set by the C20 monitor).
+var ChildHook func(spec, out string) int
+
 func Main() {
 	verif := flag.String("verif", "/verif", "verif directory")
 	prop := flag.String("prop", "", "property id")
 	replay := flag.String("replay", "", "replay file")
 	worker := flag.String("worker", "", "internal: worker args json file")
 	dump := flag.String("dump", "", "development aid: print the JSON of generated case stratum,index (uses VERIF_SEED)")
+	c20 := flag.String("c20", "", "internal: C20 child history spec (json)")
+	c20out := flag.String("c20out", "", "internal: C20 child result file")
 	flag.Parse()
+	if *c20 != "" {
+		if ChildHook == nil {
+			os.Exit(2)
+		}
+		os.Exit(ChildHook(*c20, *c20out))
+	}
 	if *worker != "" {
 		b, err := os.ReadFile(*worker)
 		if err != nil {
@@ -122,7 +133,7 @@ func Main() {
 	d.WorkDir = filepath.Join(*verif, "evidence", "work", fmt.Sprintf("%s-%d", p.ID, os.Getpid()))
 	os.MkdirAll(d.WorkDir, 0o755)
 	os.MkdirAll(filepath.Join(*verif, "evidence", "replay"), 0o755)
-	if old, _ := filepath.Glob(filepath.Join(*verif, "evidence", "replay", p.ID+"-*.json")); len(old) > 0 && os.Getenv("VERIF_KEEP_REPLAYS") == "" {
+	if old, _ := filepath.Glob(filepath.Join(*verif, "evidence", "replay", p.ID+"-*")); len(old) > 0 && os.Getenv("VERIF_KEEP_REPLAYS") == "" {
 		for _, f := range old {
 			os.Remove(f)
 		}
